@@ -39,7 +39,7 @@ def check(pid, tier, seed):
     shapes, samples = set(), []
     for s, n in runs:
         fin, fimpl, fmodel = [os.path.join(d, x) for x in ("txt_in.txt", "txt_impl.txt", "txt_model.txt")]
-        q = C.run([C.HARNESS, "txtqr", "-seed", str(s), "-n", str(n), "-in", fin, "-impl", fimpl], cwd=d, timeout=3600)
+        q = C.run([C.HARNESS, "txtqr", "-seed", str(s), "-n", str(n), "-in", fin, "-impl", fimpl], cwd=d, timeout=C.engine_timeout())
         if q.returncode != 0:
             R.violation({"property": pid, "kind": "harness txtqr crashed", "detail": (q.stdout or "")[-2000:]}, "crash")
             continue
